@@ -332,7 +332,9 @@ Inductive cstep (on_loop : bool) (s : ash) : option dst -> list aop -> ash -> op
 | C_stop : forall r,
     cstep on_loop s None (AStop :: r) (set_stop s true (asegs s)) None r [AStopEv]
 | C_sleep : forall t r, t <= aclock s ->
-    cstep on_loop s None (ASleep t :: r) s None r [ASlept].
+    cstep on_loop s None (ASleep t :: r) s None r [ASlept]
+| C_abs : forall t r,
+    cstep on_loop s None (AAbs t :: r) (fst (do_sched ts s (t - aclock s))) None r (snd (do_sched ts s (t - aclock s))).
 
 Lemma call_step_spec : forall on_loop s cur todo s' cur' todo' out,
   call_step ts fixed on_loop s cur todo = Some (s', cur', todo', out) ->
@@ -345,7 +347,7 @@ Proof.
     + eapply C_pop2. exact N.
     + apply C_pop2_empty. unfold stack. rewrite N. reflexivity.
   - unfold do_cont in H. destruct (amem f (afut s)) eqn:M; inv H. apply C_wait. exact M.
-  - destruct todo as [|[|d|u| |t] r]; [discriminate H| | | | |].
+  - destruct todo as [|[|d|u| |t|t] r]; [discriminate H| | | | | |].
     + pose proof (C_now on_loop s r) as X. destruct (do_sched ts s 0) as [s1 o1] eqn:D. inv H. exact X.
     + pose proof (C_rel on_loop s d r) as X. destruct (do_sched ts s d) as [s1 o1] eqn:D. inv H. exact X.
     + unfold do_dispose in H. destruct (nth_error (ahl s) u) as [[two l]|] eqn:N; [|inv H; apply C_noop1; exact N].
@@ -359,6 +361,7 @@ Proof.
       * inv H. eapply C_marshal; eassumption.
     + inv H. apply C_stop.
     + destruct (t <=? aclock s) eqn:E; inv H. apply C_sleep. apply Z.leb_le. exact E.
+    + pose proof (C_abs on_loop s t r) as X. destruct (do_sched ts s (t - aclock s)) as [s1 o1] eqn:D. inv H. exact X.
 Qed.
 End Facts.
 
@@ -959,6 +962,8 @@ Proof.
     apply Q_fields. eapply Q_same; try eassumption; [intros u0; discriminate|intros u0 E; discriminate E].
   - (* the sleep is over *)
     eapply Q_same; try eassumption; [intros u0; discriminate|intros u0 E; discriminate E].
+  - (* schedule_absolute *)
+    eapply Q_sched; eassumption.
 Qed.
 End Facts.
 
